@@ -17,6 +17,7 @@ import JP.Fluent
 import JP.Typing
 import JP.Projection
 import JP.Surface
+import JP.Lex
 open Lean JP
 
 namespace Drv
@@ -251,6 +252,18 @@ end
 def decPath (j : Json) : Except String Path := do
   pure ⟨← decSegs (← j.getObjVal? "segs"), ← j.getObjValAs? Bool "fake"⟩
 
+def decCompound (j : Json) : Except String Compound := do
+  let first ← decPath (← j.getObjVal? "first")
+  let restJ ← j.getObjVal? "rest"
+  let .arr restA := restJ | throw "rest"
+  let rest ← restA.toList.mapM (fun j => do
+    match j with
+    | .arr #[.str op, pj] => do
+      let p ← decPath pj
+      pure (op == "|", p)
+    | _ => throw "bad rest")
+  pure ⟨first, rest⟩
+
 def encNode (n : Node) : Json :=
   Json.mkObj [("parts", encParts n.parts), ("path", .str (l2s n.path)), ("val", encJ n.val)]
 
@@ -358,6 +371,42 @@ def decTok (j : Json) : Except String Surface.Tok :=
   | .arr #[.str "RE", .str p, .str f] => pure (.re (s2l p) (s2l f))
   | .arr #[.str "FUNC", .str n] => pure (.func (s2l n))
   | _ => throw s!"bad token {j.compress}"
+
+
+/-! lexer operations -/
+def kindName : Lex.Kind → String
+  | .dq => "DOUBLE_QUOTE_STRING" | .sq => "SINGLE_QUOTE_STRING" | .rePattern => "RE_PATTERN" | .reFlags => "RE_FLAGS"
+  | .sliceStart => "SLICE_START" | .sliceStop => "SLICE_STOP" | .sliceStep => "SLICE_STEP" | .func => "FUNCTION"
+  | .prop => "PROP" | .bare => "BARE_PROPERTY" | .flt => "FLOAT" | .int => "INT" | .ddot => "DDOT" | .and_ => "AND" | .or_ => "OR"
+  | .root => "ROOT" | .fakeRoot => "FAKE_ROOT" | .self => "SELF" | .key => "KEY" | .union => "UNION" | .inter => "INTERSECT"
+  | .fctx => "FILTER_CONTEXT" | .keys => "KEYS" | .wild => "WILD" | .filter => "FILTER" | .in_ => "IN" | .true_ => "TRUE"
+  | .false_ => "FALSE" | .nil => "NIL" | .contains => "CONTAINS" | .undefined => "UNDEFINED" | .missing => "MISSING"
+  | .lbracket => "LBRACKET" | .rbracket => "RBRACKET" | .comma => "COMMA" | .eq => "EQ" | .ne => "NE" | .lg => "LG" | .le => "LE"
+  | .ge => "GE" | .re => "RE" | .lt => "LT" | .gt => "GT" | .not_ => "NOT" | .lparen => "LPAREN" | .rparen => "RPAREN"
+
+def decSpell (req : Json) : Except String Lex.Spell :=
+  match req.getObjVal? "spell" with
+  | .ok (.arr #[.str a, .str b, .str c, .str d, .str e, .str f, .str g, .str h]) =>
+    pure { root := s2l a, fakeRoot := s2l b, self := s2l c, key := s2l d, union := s2l e, inter := s2l f, fctx := s2l g, keys := s2l h }
+  | .ok .null => pure Lex.dflt
+  | .ok _ => throw "bad spell"
+  | .error _ => pure Lex.dflt
+
+def decCfg (req : Json) : Except String Lex.Cfg := do
+  let sp ← decSpell req
+  let uw : List Char := match req.getObjValAs? String "uword" with
+    | .ok s => s.toList
+    | .error _ => []
+  pure { spell := sp, uword := fun c => uw.contains c }
+
+/-- cooked tokens grouped as `impl_tokens` groups them: [[tokens of operand 0], "|", [tokens of operand 1], …] -/
+def groupCooked (cs : List Lex.CTok) : Json :=
+  let rec go (cur : List Json) (acc : List Json) : List Lex.CTok → List Json
+    | [] => (Json.arr cur.reverse.toArray :: acc).reverse
+    | .tok t :: rest => go (encTok t :: cur) acc rest
+    | .union :: rest => go [] (Json.str "|" :: Json.arr cur.reverse.toArray :: acc) rest
+    | .inter :: rest => go [] (Json.str "&" :: Json.arr cur.reverse.toArray :: acc) rest
+  .arr (go [] [] cs).toArray
 
 def sfPrec : Surface.Prec := Surface.precOfGenerated Generated.parserPrecConsts Generated.precedences
 
@@ -554,6 +603,42 @@ def handle (req : Json) : Except String Json := do
     | none => pure (Json.mkObj [("none", .null)])
     | some none => pure (Json.mkObj [("outside", .null)])
     | some (some r) => pure (Json.mkObj [("ok", encJ r)])
+  | "lex.raw" =>
+    let text ← getStr req "text"
+    let cfg ← decCfg req
+    let raw : Json := match Lex.lexRaw cfg text with
+      | .ok ts => Json.mkObj [("ok", .arr (ts.map (fun t => Json.arr #[.str (kindName t.kind), .str (l2s t.value)])).toArray)]
+      | .error e => Json.mkObj [("err", .str e.name)]
+    let cooked : Json := match Lex.lexRaw cfg text with
+      | .ok ts => (match Lex.cook ts with
+        | .ok cs => Json.mkObj [("ok", groupCooked cs)]
+        | .error .syntax => Json.mkObj [("err", "syntax")]
+        | .error .outside => Json.mkObj [("err", "outside")])
+      | .error e => Json.mkObj [("err", .str e.name)]
+    pure (Json.mkObj [("raw", raw), ("cooked", cooked)])
+  | "lex.pstr" =>
+    let sp ← decSpell req
+    let c ← decCompound (← req.getObjVal? "query")
+    let text := Lex.pstrCompound sp c
+    -- the text round trip inside the model: lex, cook, parse each operand
+    let cfg ← decCfg req
+    let back : Json := match Lex.lexRaw cfg text with
+      | .ok ts => (match Lex.cook ts with
+        | .ok cs => Json.mkObj [("ok", groupCooked cs)]
+        | .error .syntax => Json.mkObj [("err", "syntax")]
+        | .error .outside => Json.mkObj [("err", "outside")])
+      | .error e => Json.mkObj [("err", .str e.name)]
+    let want : List Lex.CTok := (Surface.ptoksPath c.first).map Lex.CTok.tok ++
+      (c.rest.map fun (u, p) => (if u then Lex.CTok.union else Lex.CTok.inter) :: (Surface.ptoksPath p).map Lex.CTok.tok).flatten
+    pure (Json.mkObj [("text", .str (l2s text)), ("relex", back), ("ptoks", groupCooked want)])
+  | "lex.decode" =>
+    let v ← getStr req "v"
+    let q ← req.getObjValAs? String "q"
+    let r := if q == "'" then Lex.decodeSQ v else Lex.decodeDQ v
+    pure (match r with
+      | .ok s => Json.mkObj [("ok", .str (l2s s))]
+      | .error .syntax => Json.mkObj [("err", "syntax")]
+      | .error .surrogate => Json.mkObj [("err", "outside")])
   | "sf.ptoks" =>
     let path ← decPath (← req.getObjVal? "path")
     pure (Json.mkObj [("tokens", .arr ((Surface.ptoksPath path).map encTok).toArray),
